@@ -170,7 +170,9 @@ def run_retry(case):
                     out.fail('retry:sent-while-closed', '%s: request %d issued with no link open was transmitted %r' % (desc, i, tx))
                 continue
             # a send entered at the very instant of the close is concurrent with it: accepted either way
-            if any(c and not (sessions[si][1] is not None and tt <= sessions[si][1] + EPS) for tt, si, c in tx):
+            # (a thread held up inside send_packet widens that window by the time it was held up)
+            held = sum(d for _, d, _n in s.stall_log)
+            if any(c and not (sessions[si][1] is not None and tt <= sessions[si][1] + EPS + held) for tt, si, c in tx):
                 out.fail('retry:sent-on-closed-link', '%s: request %d transmitted on a closed link: %r' % (desc, i, tx))
             if any(si != sess for tt, si, c in tx):
                 out.fail('retry:crosses-sessions', '%s: request %d issued in session %d transmitted in session(s) %r at %r' % (
@@ -193,6 +195,28 @@ def run_retry(case):
                              '%s: request %d transmitted at %r' % (desc, i, [round(x, 4) for x in times]))
                 continue
             T = r['timeout']
+            if s.stall_log:
+                # some thread was held up for a while (possibly inside send_packet, holding the send lock): exact instants
+                # are no longer determined, what remains is that the request keeps being retransmitted until it is answered
+                # or the link closes, and never afterwards
+                slack = sum(d for _, d, _n in s.stall_log) + T + 1e-6
+                late = [x for x in times if x > stop + slack - T]
+                if late and t_ans is not None and any(x > t_ans + slack - T for x in late):
+                    out.fail('retry:unexpected-transmission:after-answer', '%s: request %d answered %.4f transmitted at %r (stalls %r)' % (
+                        desc, i, t_ans, [round(x, 4) for x in times], s.stall_log))
+                elif any(x > t_close + EPS + held for x in times):
+                    out.fail('retry:unexpected-transmission:after-close', '%s: request %d link closed %.4f transmitted at %r (stalls %r)' % (
+                        desc, i, t_close, [round(x, 4) for x in times], s.stall_log))
+                elif times:
+                    marks = sorted(times) + [stop]
+                    gaps = [b - a for a, b in zip(marks, marks[1:])]
+                    if max(gaps) > slack:
+                        out.fail('retry:missing-retransmission', '%s: request %d (timeout %.1f, issued %.4f, answered %s, link closed %.4f) transmitted at %r with '
+                                 'threads held up at %r: no transmission for %.3f s' % (desc, i, T, t0, None if t_ans is None else round(t_ans, 4), t_close,
+                                                                                         [round(x, 4) for x in times], s.stall_log, max(gaps)))
+                elif stop - t0 > slack:
+                    out.fail('retry:missing-retransmission', '%s: request %d never transmitted (stalls %r)' % (desc, i, s.stall_log))
+                continue
             want = []
             n = 0
             ambiguous = []
@@ -215,7 +239,7 @@ def run_retry(case):
                  for a in reqs for b in reqs if a is not b and a['expected'] and b['expected'])
     reopen_race = any(e['kind'] == 'reopen' for e in case['events'])
     out.nontrivial = race or shared or reopen_race
-    out.feat('race-with-timer' if race else 'no-race', 'shared-prefix' if shared else 'distinct-prefixes', 'reopen' if reopen_race else 'single-session',
+    out.feat('thread-held-up' if s.stall_log else 'no-stall', 'race-with-timer' if race else 'no-race', 'shared-prefix' if shared else 'distinct-prefixes', 'reopen' if reopen_race else 'single-session',
              'resending' if case['needs_resending'] else 'reliable')
     return out
 
@@ -273,8 +297,12 @@ def retry_case(draw):
                                  'reply': {'lost': 1, 'delay': 0.01, 'tail': [0xF0]}})
     unrelated = draw(st.lists(st.fixed_dictionaries({'t': st.sampled_from([0.05, 0.15, 0.25, 0.6, 1.1]), 'port': st.sampled_from([2, 4, 5, 0]),
                                                      'channel': st.integers(0, 3), 'data': st.lists(st.sampled_from([1, 2, 5, 7]), min_size=1, max_size=3)}), max_size=3))
+    sched = draw(_sched)
+    if draw(st.sampled_from([False, False, False, True])):
+        # a thread held up at the start of another thread (e.g. between Timer.start() and the next statement) for longer than a timeout
+        sched['stalls'] = [{'kind': 'start', 'at': draw(st.integers(1, 10)), 'd': draw(st.sampled_from([0.05, 0.25, 0.25, 0.45, 1.1]))}]
     return {'needs_resending': draw(st.sampled_from([True, True, True, False])), 'requests': reqs, 'events': events, 'unrelated': unrelated,
-            'tail': draw(st.sampled_from([0.5, 1.3, 2.6])), 'schedule': draw(_sched)}
+            'tail': draw(st.sampled_from([0.5, 1.3, 2.6])), 'schedule': sched}
 
 
 def subchecks(tier):
